@@ -7,6 +7,7 @@
 (* (RegionContract.tla).  The monitor keeps, per slot, only what the       *)
 (* contract needs: how many items are live and the last pushed value.      *)
 (*                                                                         *)
+(*   C03  FlatStacks over index values beyond u32::MAX denote the copies   *)
 (*   C01  the item read at the new index renders as the pushed value       *)
 (*   C02  every earlier index still renders as when first read             *)
 (*   C09 / C16  a copy reads exactly like its source                       *)
@@ -32,7 +33,7 @@ vars == <<l, meta, slots, skip, errs>>
 Err(e, prop, why) ==
   IF PrintT(<<"ERR", ToJson([line |-> l, run |-> e.run, why |-> why, prop |-> prop])>>) THEN errs + 1 ELSE errs
 
-Fresh == [n |-> 0, has |-> FALSE, last |-> 0, dead |-> FALSE]
+Fresh == [n |-> 0, has |-> FALSE, last |-> 0, dead |-> FALSE, items |-> <<>>]
 Init == l = 1 /\ meta = [dense |-> FALSE, collapse |-> FALSE, shape |-> [k |-> "none"]] /\ slots = <<>> /\ skip = FALSE /\ errs = 0
 
 Shrunk(cb, ca) == Len(cb) = Len(ca) /\ \E i \in 1..Len(cb) : ca[i] < cb[i]
@@ -63,9 +64,23 @@ Step(e) ==
              vd == PushVerdict(e, sl)
          IN  IF vd[2] = "ok"
              THEN /\ slots' = [slots EXCEPT ![e.s] = [n |-> sl.n + 1, has |-> meta.collapse,
-                                                      last |-> IF meta.collapse THEN e.v ELSE 0, dead |-> FALSE]]
+                                                      last |-> IF meta.collapse THEN e.v ELSE 0, dead |-> FALSE,
+                                                      items |-> <<>>]]
                   /\ UNCHANGED <<meta, skip, errs>>
              ELSE errs' = Err(e, vd[1], vd[2]) /\ skip' = TRUE /\ UNCHANGED <<meta, slots>>
+    [] e.ev = "stack_copy" ->
+         \* C03 for FlatStacks over index values no bounded model reaches: the stack is the sequence of copies
+         LET sl == slots[e.s]
+             want == Append(sl.items, e.v_s)
+             why == IF e.panic THEN "copy-panicked"
+                    ELSE IF e.len # Len(want) \/ e.is_empty THEN "len"
+                    ELSE IF e.items_s # want THEN "get"
+                    ELSE IF e.iter_s # want THEN "iter"
+                    ELSE IF ~e.oob_ok THEN "out-of-bounds-or-iterator-laws"
+                    ELSE "ok"
+         IN  IF why = "ok"
+             THEN slots' = [slots EXCEPT ![e.s].items = want] /\ UNCHANGED <<meta, skip, errs>>
+             ELSE errs' = Err(e, "C03", why) /\ skip' = TRUE /\ UNCHANGED <<meta, slots>>
     [] e.ev = "clear" ->
          IF e.panic THEN errs' = Err(e, "C08", "clear-panicked") /\ skip' = TRUE /\ UNCHANGED <<meta, slots>>
          ELSE IF Shrunk(e.caps_before, e.caps_after)
